@@ -22,35 +22,74 @@ CAP_ORACLE = {"Butt": "DoBevel", "Round": "DoRound", "Square": "DoSquare", "Join
 
 
 def _cap_tables(db, chk, cfg):
+    """Start and end cap of OffsetOpenPath.  Every top-level statement of the function that (transitively) contains a call of
+    DoBevel / DoRound / DoSquare is a cap dispatch; there are two, the first for the start of the path and the second for its end.
+    Each is interpreted for every EndType (switch or if-chain alike) with a delta that is not negligible and no delta callback; the
+    index arguments are evaluated with path.size() == 10 (start: 0, end: 9)."""
     f = db.one("ClipperOffset::OffsetOpenPath")
-    sw = [x for x in walk(f.body) if x.get("kind") == "SwitchStmt" and "end_type_" in canon(kids(x)[-2])]
-    if len(sw) != 2:
-        raise AnalysisBroken("expected 2 switches on end_type_ in OffsetOpenPath (start and end cap), found %d" % len(sw))
+    CAPS = ("DoBevel", "DoRound", "DoSquare", "DoMiter")
+    top = [x for x in kids(f.body) if isinstance(x, dict) and x.get("kind")]
+    disp = [x for x in top if any(y.get("kind") in ("CXXMemberCallExpr", "CallExpr") and db.callee(y)[0] in CAPS for y in walk(x))]
+    if len(disp) != 2:
+        raise AnalysisBroken("expected 2 cap dispatches (top-level statements calling DoBevel/DoRound/DoSquare) in OffsetOpenPath, found %d" % len(disp))
     ends = db.enum("EndType")
+    pname = f.params[1]["name"] if len(f.params) > 1 else "path"
     tables = []
-    for which, s in zip(("start", "end"), sw):
+    for which, s in zip(("start", "end"), disp):
         tbl = {}
         for i, en in enumerate(ends):
-            it = Interp(db, {"end_type_": i}, effect_names=("DoBevel", "DoRound", "DoSquare", "DoMiter", "OffsetPoint"))
+            calls = []
+
+            def hook(name, argv, nd):
+                if name in CAPS:
+                    a = db.call_args(nd)
+                    vals = []
+                    for z in a[1:]:
+                        try:
+                            vals.append(it.ev(z))
+                        except Unsupported:
+                            vals.append(canon(z))
+                    calls.append((name, tuple(vals)))
+                    return None
+                if name == "size" and nd.get("kind") == "CXXMemberCallExpr" and canon(db.member_base(nd)) == pname:
+                    return 10
+                if name in ("fabs", "abs"):
+                    return 5.0
+                if name in ("emplace_back", "push_back", "OffsetPoint"):
+                    return None
+                return NotImplemented
+            it = Interp(db, {"end_type_": i, "deltaCallback64_": False, "group_delta_": 5.0, "floating_point_tolerance": 1e-12, "PI": 3.141592653589793},
+                        call_hook=hook)
             try:
+                # local index variables declared before the dispatch (e.g. highI = path.size() - 1)
+                for t0 in top:
+                    if t0 is s:
+                        break
+                    if t0.get("kind") == "DeclStmt":
+                        for d in kids(t0):
+                            init = [c for c in kids(d) if isinstance(c, dict) and c.get("kind")]
+                            if d.get("kind") == "VarDecl" and init:
+                                try:
+                                    it.env[d["name"]] = it.ev(init[-1])
+                                except Unsupported:
+                                    pass
                 it.exec(s)
             except Unsupported as e:
-                raise AnalysisBroken("cannot interpret the %s-cap switch: %s" % (which, e))
-            calls = [(n, tuple(str(a) for a in args)) for n, args, line in it.effects]
+                raise AnalysisBroken("cannot interpret the %s-cap dispatch of OffsetOpenPath: %s" % (which, e))
             tbl[en] = calls
         tables.append(tbl)
     bad = []
     for which, tbl in zip(("start", "end"), tables):
-        idx = "0" if which == "start" else "highI"
+        idx = 0 if which == "start" else 9
         for en in ends:
             calls = tbl[en]
             want = CAP_ORACLE.get(en)
-            ok = len(calls) == 1 and calls[0][0] == want and calls[0][1][1:3] == (idx, idx) and \
-                (want != "DoRound" or "PI" in calls[0][1][3] or calls[0][1][3].startswith("3.14"))
             if en in ("Joined", "Polygon"):
                 # never reach OffsetOpenPath with these end types (DoGroupOffset dispatches them elsewhere): table cell unreachable
                 chk.instance("CAP.table", None)
                 continue
+            ok = len(calls) == 1 and calls[0][0] == want and tuple(calls[0][1][0:2]) == (idx, idx) and \
+                (want != "DoRound" or (len(calls[0][1]) > 2 and isinstance(calls[0][1][2], float) and abs(calls[0][1][2] - 3.141592653589793) < 1e-9))
             chk.instance("CAP.table", {"cap": which, "end_type": en, "calls": [c[0] + str(c[1]) for c in calls], "cfg": cfg}, ok=ok)
             if not ok:
                 bad.append((which, en, calls))
@@ -61,7 +100,7 @@ def _cap_tables(db, chk, cfg):
                       f.where, cfg=cfg)
     # both ends must agree up to the index
     for en in ends:
-        a = [(c[0], tuple(x.replace("highI", "0") for x in c[1])) for c in tables[1][en]]
+        a = [(c[0], tuple(0 if x == 9 else x for x in c[1])) for c in tables[1][en]]
         if a != tables[0][en] and en not in ("Joined", "Polygon"):
             chk.violation("CAP.symmetry", f.qual, en, "start cap %s and end cap %s differ for EndType::%s" % (tables[0][en], tables[1][en], en),
                           f.where, cfg=cfg)
